@@ -441,6 +441,11 @@ def nesting_bound(rep, fb, rule='R15.10'):
                 continue
             if edge_dominates(g10, bid, True, tb) or edge_dominates(g10, bid, False, tb):
                 ok = True
+        if not ok:
+            # a test right behind the push bounds the depth as well: no way from this push round to the next one past every size test
+            tests = [y['id'] for blk in g10.blocks.values() if blk.get('cond') is not None and blk['cond'] in fj.nodes and size_vs_const(fj.nodes[blk['cond']]) for y in sub(fj.nodes[blk['cond']]) if 'id' in y]
+            if tests and g10.can_reach(g10.pos[n['id']], [p_['id'] for p_ in pushes], avoid=tests) is None:
+                ok = True
         rep.check(ok, rule, 'fromJSON|nesting bound', locstr(n), 'an open container is pushed %s' % (
             'only below a constant nesting depth' if ok else 'WITHOUT any bound on the nesting: 200000 `[` followed by 200000 `]` parse, and the recursive destructor of the result overflows the stack (SIGSEGV)'))
 
